@@ -460,6 +460,76 @@ def check_case(case, timeout_s):
     return "holds", None
 
 
+# ------------------------------------------------------------------ arrayed stocks (Element._handle_arrayed, stock branch)
+
+def stock_case(shape, form, sym, env=None):
+    """an arrayed stock integrating an arrayed flow element (form 'el') or an arrayed operator (form = op name);
+    returns list of (key, t, value, reference)"""
+    from BPTK_Py import Model
+    m = Model(starttime=0.0, stoptime=3.0, dt=1.0, name="c10s")
+    A, B = setup(m, "A", shape), setup(m, "B", shape)
+    St = m.stock("St")
+    ks = keys_of(shape)
+    if shape[0] == "v":
+        if shape[2]:
+            St.setup_named_vector({k[0]: 1.0 for k in ks})
+        else:
+            St.setup_vector(shape[1], [1.0] * shape[1])
+    else:
+        if shape[3]:
+            d = {}
+            for k in ks:
+                d.setdefault(k[0], {})[k[1]] = 1.0
+            St.setup_named_matrix(d)
+        else:
+            St.setup_matrix([shape[1], shape[2]], [[1.0] * shape[2] for _ in range(shape[1])])
+    get = (lambda n: S.v(n)) if sym else (lambda n: float((env or {}).get(n, 1.0)))
+    for nm in ("A", "B"):
+        (symbolise if sym else (lambda mm, n, sh: floatise(mm, n, sh, env or {})))(m, nm, shape)
+    if form == "el":
+        F = m.flow("F")
+        F.equation = A * B
+        St.equation = F
+        rate = lambda k: S.sym_max(0, get(leafname("A", k)) * get(leafname("B", k)))
+    else:
+        St.equation = OPS[form](A, B)
+        rate = lambda k: OPS[form](get(leafname("A", k)), get(leafname("B", k)))
+    out = []
+    for k in ks:
+        cur = St
+        for part in k:
+            cur = cur[part]
+        for t in (0.0, 1.0, 2.0):
+            out.append((k, t, cur(t), 1.0 + t * rate(k)))
+    return out
+
+
+def check_stock_case(shape, form, timeout_s):
+    def run():
+        try:
+            return ("ok", stock_case(shape, form, True))
+        except Exception as e:
+            return ("exc", e)
+    try:
+        paths = S.explore(run, max_paths=16)
+    except (S.PathCapExceeded, S.SolverUnknown, S.SymbolicEscape) as e:
+        return "unknown", "explore: %r" % (e,)
+    for p in paths:
+        if p.exc is not None:
+            return "unknown", "harness: %r" % (p.exc,)
+        if p.out[0] == "exc":
+            return "refused", "raised %r" % (p.out[1],)
+        for k, t, val, ref in p.out[1]:
+            v = solve.prove_equal(S.term_of(val), S.term_of(ref), p.pc, timeout_s=timeout_s)
+            if v.status == "violated":
+                mdl = solve.complete_model(v.model, S.term_of(val), S.term_of(ref))
+                mdl["_entry"] = list(k) + [t]
+                return "violated", mdl
+            if v.status == "unknown":
+                return "unknown", v.detail
+    return "holds", None
+
+
 # ------------------------------------------------------------------ replay on the real code
 
 ALT = [1.5, 2.25, -0.75, 3.5, 0.6, 4.2, -1.3, 2.8, 0.9, 5.1, 1.1, -2.4, 3.3, 0.35, 6.0, 1.9, 2.1, 0.45, 7.3, -0.2]
@@ -472,6 +542,17 @@ def _tup(x):
 
 
 def replay(case_json):
+    if case_json.get("kind") == "stock":
+        shape, form = _tup(case_json["shape"]), case_json["form"]
+        for env in (case_json.get("env", {}), {"A[0]": 2.0, "B[0]": -3.0, "A[x]": 2.0, "B[x]": -3.0, "A[0][0]": 2.0, "B[0][0]": -3.0, "A[x][p]": 2.0, "B[x][p]": -3.0}):
+            try:
+                vals = stock_case(shape, form, False, env)
+            except Exception as e:
+                return False, "arrayed stock %s %s: raised %r (refusing loudly is allowed)" % (shape, form, e)
+            for k, t, val, ref in vals:
+                if abs(float(val) - float(ref)) > 1e-9 * (1 + abs(float(ref))):
+                    return True, "arrayed stock %s with %s: entry %s at t=%s is %r, Euler gives %r" % (shape, form, k, t, float(val), float(ref))
+        return False, "arrayed stock %s %s follows Euler" % (shape, form)
     case = _tup(case_json["case"])
     envs = [case_json.get("env", {})]
     names = []
@@ -599,6 +680,16 @@ def run(tier):
                 refused.append("%s: %s" % (describe(c), info))
             if len(samples) < 14 and (len(samples) < 6 or st not in ("holds", "rejected")):
                 samples.append({"case": describe(c), "verdict": st, "info": str(info)[:160]})
+        stock_cases = [(sh, f) for sh in all_shapes() if (tier == "thorough" or sh[1] <= 2) for f in ("el", "add", "sub", "mul", "div")]
+        for sh, f in stock_cases:
+            st, info = check_stock_case(sh, f, timeout)
+            counts[st] += 1
+            if st == "violated":
+                env = {k: float(v) for k, v in info.items() if isinstance(v, (Fraction, int, float)) and not isinstance(v, bool)}
+                rep.candidate("stock:%s:%s" % (f, _shape_class(sh)), {"kind": "stock", "shape": sh, "form": f, "env": env},
+                              "arrayed stock %s integrating %s: entry %s differs from Euler" % (sh, f, info.get("_entry")))
+            elif st == "unknown":
+                rep.inconcl("arrayed stock %s %s: %s" % (sh, f, info))
         rep.canary("DotOperator-left-operand-transposed", canary_dot_transposed())
         rep.canary("BinaryOperator-size-check-removed", canary_size_check_removed())
     finally:
@@ -612,8 +703,8 @@ def run(tier):
     rep.notes.extend(refused[:10])
     rep.assume("array entries and scalars are reals; sqrt in stddev is the same uninterpreted pow(x,1/2) on both sides",
                "median/rank via ITE sorting network (Python sorted semantics)", "shapes <= 3x3, vectors <= 3, indexed and named",
-               "time fixed at t=1 (arrayed stock dynamics belong to C01)")
-    rep.coverage.update({"programs": len(cs), "disagreements_checked": len(violated), "samples": samples, "verdicts": counts,
+               "time fixed at t=1 for converters; arrayed stocks (integrating an arrayed flow or an arrayed operator) at t=0,1,2 against Euler")
+    rep.coverage.update({"programs": len(cs) + len(stock_cases), "arrayed_stock_cases": len(stock_cases), "disagreements_checked": len(violated), "samples": samples, "verdicts": counts,
                          "exhaustive": True,
                          "bounds": "all shapes up to 3x3 (indexed+named) x {+,-,*,/} x operand forms; dot for every indexed shape pair incl. scalars; 8 aggregates; all same-rank mismatches",
                          "outside": "3-dimensional arrays, shapes > 3x3"})
